@@ -559,6 +559,49 @@ def check_gate_inner(rep, prog, u, setflow_handlers):
     return n
 
 
+
+# ---- R-dead-guard: the code that announces a changed flow definition is reachable --------------------------------
+def check_dead_guard(rep, prog):
+    """a branch taken on the result of a function that returns UBASE_ERR_NONE on every path is never taken: what it
+    guards - in UPIPE_HELPER_OUTPUT_SIZE the storing of the flow definition amended with the new size - is dead"""
+    from upv.facts import strip_expect
+    rep.rule('R-dead-guard', 'no branch condition is the bare result (possibly through likely / unlikely / !) of a function of the tree whose every return is the '
+             'constant UBASE_ERR_NONE: such a test is always false, and the arm it guards never runs. Where that arm passes X_store_flow_def (the set_output_size '
+             'of UPIPE_HELPER_OUTPUT_SIZE: aggregate, ts_check, ts_sync, the sources) the output is never told that the unit size changed')
+    def always_none(g):
+        rets = [x for _, _, x in g.nodes() if x.get('k') == 'return']
+        return bool(rets) and all(isinstance(r.get('e'), dict) and enum_name(r['e']) == 'UBASE_ERR_NONE' for r in rets)
+    cache = {}
+    n = 0
+    for uname, u in sorted(prog.units.items()):
+        for fn in sorted(u.funcs.values(), key=lambda f: f.name):
+            if not fn.blocks:
+                continue
+            for b in sorted(fn.blocks):
+                c = fn.cond(b)
+                if not c:
+                    continue
+                t, neg = strip_expect(c[0])
+                if not (isinstance(t, dict) and t.get('k') == 'call' and t.get('fn')):
+                    continue
+                g = prog.lookup(u, t['fn'])
+                if g is None or not g.blocks:
+                    continue
+                n += 1
+                key = (g.file, g.name)
+                if key not in cache:
+                    cache[key] = always_none(g)
+                if cache[key]:
+                    rep.add('R-dead-guard', '%s:%s' % (fn.name, t['fn']), VIOLATED, '%s:%s' % (fn.file, t.get('l')),
+                            what='%s branches on the result of %s(), which returns UBASE_ERR_NONE (0) on every path: the %s arm is dead code%s' % (
+                                fn.name, t['fn'], 'false' if neg else 'true',
+                                ' - it holds the call that stores the amended flow definition' if any(
+                                    x.get('k') == 'call' and (x.get('fn') or '').endswith('_store_flow_def') for _, _, x in fn.nodes()) else ''))
+    rep.add('R-dead-guard', 'all-units', HOLDS, 'lib', conditions_on_call_results=n)
+    if n < 200:
+        raise facts.AnalysisBroken('R-dead-guard examined only %d conditions' % n)
+
+
 def run(tier='quick', repo=None):
     repo = repo or facts.REPO
     rep = Report(PROP, tier)
@@ -621,6 +664,7 @@ def run(tier='quick', repo=None):
             rep.add('R-gate-inband', o.instance, o.status, o.loc, **o.detail)
     if nband < 10:
         raise facts.AnalysisBroken('R-gate-inband found only %d callers of input handlers' % nband)
+    check_dead_guard(rep, prog)
     if ninner < 3:
         raise facts.AnalysisBroken('R-gate-inner found only %d negotiations with inner pipes' % ninner)
     rep.assumptions = [
